@@ -339,8 +339,17 @@ pub fn drive(args: &[String]) {
         hostile.push((kind.into(), "child-whitespace", format!("{}>", root(kind)).into_bytes(), b"\n ".to_vec(), child_limit));
         hostile.push((kind.into(), "child-entity-text", format!("{}>{}x\">", root(kind), child_open(kind)).into_bytes(), b"&amp;".to_vec(), child_limit));
         hostile.push((kind.into(), "child-nesting", format!("{}>", root(kind)).into_bytes(), b"<a>".to_vec(), child_limit));
+        // endless runs of SMALL items that are not elements: none of them is long, together they are; no element starts, so no
+        // fresh budget is due
+        hostile.push((kind.into(), "prolog-comments", b"<?xml version=\"1.0\"?>".to_vec(), b"<!--x-->".to_vec(), H));
+        hostile.push((kind.into(), "prolog-pis", b"<?xml version=\"1.0\"?>".to_vec(), b"<?p x?>".to_vec(), H));
+        hostile.push((kind.into(), "child-comments", format!("{}>", root(kind)).into_bytes(), b"<!--x-->\n".to_vec(), child_limit));
+        hostile.push((kind.into(), "child-pis", format!("{}>", root(kind)).into_bytes(), b"<?p x?>".to_vec(), child_limit));
+        hostile.push((kind.into(), "child-cdata", format!("{}>", root(kind)).into_bytes(), b"<![CDATA[ ]]>".to_vec(), child_limit));
         if kind != "notification" {
             hostile.push((kind.into(), "publish-text", format!("{}><publish uri=\"rsync://h/m/a.cer\">", root(kind)).into_bytes(), b"QUJD".to_vec(), F));
+            hostile.push((kind.into(), "publish-text-comments", format!("{}><publish uri=\"rsync://h/m/a.cer\">QUJD", root(kind)).into_bytes(), b"<!--x-->".to_vec(), F));
+            hostile.push((kind.into(), "publish-text-cdata", format!("{}><publish uri=\"rsync://h/m/a.cer\">", root(kind)).into_bytes(), b"<![CDATA[QUJD]]>".to_vec(), F));
             // a long (acceptable) start tag and then endless text: both belong to ONE element and share ONE budget
             let mut p = format!("{}><publish uri=\"rsync://h/m/", root(kind)).into_bytes();
             p.extend(std::iter::repeat(b'a').take(12_000_000));
@@ -354,7 +363,9 @@ pub fn drive(args: &[String]) {
         }
         // the offending element starts where its start tag starts (for the long start tag that is 12 MB before the end of the prefix)
         let offset = if place == "publish-long-tag-then-text" { (prefix.len() - 12_000_000 - 40) as u64 } else { prefix.len() as u64 };
-        let src = Endless { prefix, filler, pos: 0, pulled: 0, hard_stop: 4 * F };
+        // the stream goes on for twice the limit in force past its prefix: enough to show an overrun, and short enough that a reader
+        // that does not stop at all (and the budget trace recorded from it) stays small
+        let src = Endless { hard_stop: prefix.len() as u64 + 2 * limit + 4 * CAP as u64, prefix, filler, pos: 0, pulled: 0 };
         match parse_traced(&kind, src, &mut t) {
             Ok((ok, pulled, refused)) => {
                 // the bound is stated in terms of the limit the code has CONFIGURED for that element (seen through the hook), so that
